@@ -43,7 +43,7 @@ PS = [0.0, 0.25, 0.5, 0.9, 1.0, 0.1, 1.0 / 3.0]
 def plan(tier, seed, variants_quick, variants_thorough):
     if tier == 'quick':
         return {'d2': 14, 'd3': 9, 'd4': 7, 'nstreams': 1000, 'nmirror': 400, 'dense': 300, 'longmax': 5000, 'variants': variants_quick, 'mult': 1}
-    return {'d2': 17, 'd3': 11, 'd4': 9, 'nstreams': 20000, 'nmirror': 6000, 'dense': 400, 'longmax': 100000, 'variants': variants_thorough, 'mult': 8}
+    return {'d2': 18, 'd3': 12, 'd4': 9, 'nstreams': 20000, 'nmirror': 6000, 'dense': 400, 'longmax': 100000, 'variants': variants_thorough, 'mult': 8}
 
 
 def run_workload(tier, seed, shard_s, shard_t):
